@@ -25,6 +25,7 @@
 #include "explore.h"
 #include "cstl/bintree.h"
 #include "cstl/rbtree.h"
+#include "cstl/heap.h"
 #include <string.h>
 #include <stdio.h>
 #include <limits.h>
@@ -38,8 +39,8 @@
 #endif
 
 #define MAXT   2
-#define MAXE   4224
-#define MAXKEY 4096             /* keys are 0..nkeys-1, probes -1..nkeys */
+#define MAXE   6400
+#define MAXKEY 32768            /* keys are 0..nkeys-1, probes -1..nkeys */
 #define MAGIC  0x7ee5e1e7u
 #define RED    CSTL_RBTREE_COLOR_R
 #define BLACK  CSTL_RBTREE_COLOR_B
@@ -52,6 +53,7 @@ static int mc_mode;             /* "<mode>-mc": reduced workload for the valgrin
  * (bintree cases use rn[c].n only).  In "mixed" scopes tree 0 starts with class 0 and tree 1 with class 1, so an
  * element can be held by both trees at once and the `off` members of the tree objects become observable
  * (swap must carry them along).  All other scopes use class 0 only. */
+struct subc;
 struct elem {
     uint32_t magic;
     int id, key;
@@ -59,6 +61,7 @@ struct elem {
     int midx[2];                /* per class: index in M[where[c]] */
     int vis;                    /* traversal state: 0 none, 1 PRE, 2 MID, 3 done */
     uint32_t stamp;             /* walker visit stamp */
+    struct subc *sub;           /* mode clear: private container owned by this element (or NULL) */
     uint64_t pad0;
     struct cstl_rbtree_node rn[2];
     uint64_t pad1;
@@ -106,7 +109,7 @@ static struct elem *new_elem(int id)
     struct elem *e = vrt_alloc(sizeof(*e));
     memset(e, 0x5e, sizeof(*e));
     e->magic = MAGIC; e->id = id; e->key = -2; e->where[0] = e->where[1] = -1; e->midx[0] = e->midx[1] = -1;
-    e->vis = 0; e->stamp = 0;
+    e->vis = 0; e->stamp = 0; e->sub = NULL;
 #ifdef HAVE_MEMCHECK_H
     /* the embedded node starts out undefined: memcheck reports any use the library makes of it before writing it */
     VALGRIND_MAKE_MEM_UNDEFINED(&e->rn, sizeof(e->rn));
@@ -204,11 +207,13 @@ static int t_foreach(int t, cstl_bintree_const_visit_func_t *v, void *p, int rev
 /* ---- state ---- */
 #define SCOPE(rb, nt, nk, np) ((rb) | (nt) << 1 | (nk) << 3 | (np) << 16)
 #define SCOPE_MIXED (1 << 29)
-static void st_create(int scope)
+static void sub_reset(void);
+static void sub_release(struct elem *e);
+static void st_create_ex(int rb, int nt, int nk, int np, int mx)
 {
     int i, t;
-    is_rb = scope & 1; ntrees = (scope >> 1) & 3; nkeys = (scope >> 3) & 0x1fff; npool = (scope >> 16) & 0x1fff;
-    mixed = (scope >> 29) & 1;
+    is_rb = rb; ntrees = nt; nkeys = nk; npool = np; mixed = mx;
+    sub_reset();
     for (i = 0; i < npool; i++) pool[i] = new_elem(i);
     nfree = 0;
     for (i = npool - 1; i >= 0; i--) freeids[nfree++] = i;
@@ -233,15 +238,137 @@ static void st_create(int scope)
         memset(cnt[t], 0, (nkeys + 2) * sizeof(cnt[t][0]));
     }
 }
+static void st_create(int scope)
+{
+    st_create_ex(scope & 1, (scope >> 1) & 3, (scope >> 3) & 0x1fff, (scope >> 16) & 0x1fff, (scope >> 29) & 1);
+}
 static void st_destroy(void)
 {
     int i, t;
-    for (i = 0; i < npool; i++) { vrt_free(pool[i]); pool[i] = NULL; }
+    for (i = 0; i < npool; i++) { if (pool[i]->sub != NULL) sub_release(pool[i]); vrt_free(pool[i]); pool[i] = NULL; }
     vrt_free(probe); probe = NULL;
     for (t = 0; t < ntrees; t++) {
         if (is_rb) { vrt_free(RT[t]); RT[t] = NULL; } else { vrt_free(BT[t]); BT[t] = NULL; }
     }
 }
+/* ---- nested containers (mode clear) ----
+ * A share of the elements own a private, non-empty container (plain tree, red-black tree or heap in turn) of
+ * individually allocated sub-elements.  Destroying such an element clears its container first, with a callback and
+ * a priv of its own -- the ordinary destructor pattern.  When the element is destroyed from inside the clear
+ * callback of the outer tree this is a clear of a different object running inside a clear: each callback must
+ * still see exactly the elements of its own container, once, with its own priv. */
+#define SMAGIC 0x5ab5e1e7u
+#define SUBMAX 4
+struct selem {
+    uint32_t magic;
+    int key;
+    struct subc *owner;
+    uint64_t pad0;
+    struct cstl_rbtree_node rn;         /* rn.n doubles as the heap node */
+    uint64_t pad1;
+};
+struct subc {
+    uint32_t magic;
+    int kind, n, seen, owner_id;        /* kind: 0 bintree, 1 rbtree, 2 heap */
+    struct selem *se[SUBMAX];
+    union { struct cstl_bintree bt; struct cstl_rbtree rt; struct cstl_heap hp; } u;
+};
+static int sub_token, sub_ctr, ins_ctr, nested_ran;
+static struct subc *cur_sub;            /* the inner container being cleared right now */
+static void sub_reset(void) { sub_ctr = 0; ins_ctr = 0; cur_sub = NULL; }
+static int cmp_sub(const void *a, const void *b, void *p)
+{
+    const struct selem *x = a, *y = b;
+    VRT_CHECK(p == (void *)&sub_token, TK("nested.cmp.priv"), "comparison of an inner container called with priv %p", p);
+    VRT_CHECK(x->magic == SMAGIC && y->magic == SMAGIC, TK("nested.cmp.foreign-element"),
+              "comparison of an inner container called with something that is not one of its elements");
+    return (x->key > y->key) - (x->key < y->key);
+}
+static void sub_attach(struct elem *e)
+{
+    struct subc *sc = vrt_alloc(sizeof(*sc));
+    int i;
+    VRT_OP1("nested.fill", "owner e%ld", e->id);
+    memset(sc, 0x5e, sizeof(*sc));
+    sc->magic = SMAGIC; sc->kind = sub_ctr % 3; sc->n = 2 + (sub_ctr / 3) % 3; sc->seen = 0; sc->owner_id = e->id;
+    sub_ctr++;
+    switch (sc->kind) {
+    case 0: cstl_bintree_init(&sc->u.bt, cmp_sub, &sub_token, offsetof(struct selem, rn.n)); break;
+    case 1: cstl_rbtree_init(&sc->u.rt, cmp_sub, &sub_token, offsetof(struct selem, rn)); break;
+    default: cstl_heap_init(&sc->u.hp, cmp_sub, &sub_token, offsetof(struct selem, rn.n)); break;
+    }
+    for (i = 0; i < SUBMAX; i++) sc->se[i] = NULL;
+    for (i = 0; i < sc->n; i++) {
+        struct selem *x = vrt_alloc(sizeof(*x));
+        memset(x, 0x5e, sizeof(*x));
+        x->magic = SMAGIC; x->key = (i * 3 + sub_ctr) % 4; x->owner = sc;
+        sc->se[i] = x;
+        switch (sc->kind) {
+        case 0: cstl_bintree_insert(&sc->u.bt, x, NULL); break;
+        case 1: cstl_rbtree_insert(&sc->u.rt, x, NULL); break;
+        default: cstl_heap_push(&sc->u.hp, x); break;
+        }
+    }
+    e->sub = sc;
+    VRT_COUNT("nested.attached");
+}
+static void sub_clear_cb(void *ev, void *p)
+{
+    struct selem *x = ev;
+    int i;
+    VRT_CHECK(cur_sub != NULL, TK("clear.nested.callback-outside-its-clear"),
+              "the callback of an inner container's clear was invoked while no inner clear is running (priv %p)", p);
+    VRT_CHECK(p == (cur_sub->kind == 2 ? NULL : (void *)cur_sub), TK("clear.nested.priv"),
+              "inner clear callback got priv %p, not the one passed to its own clear call", p);
+    VRT_CHECK(x->magic == SMAGIC && x->owner == cur_sub, TK("clear.nested.foreign-element"),
+              "inner clear callback was handed something that is not an element of the inner container (or twice)");
+    for (i = 0; i < cur_sub->n; i++) if (cur_sub->se[i] == x) cur_sub->se[i] = NULL;
+    cur_sub->seen++;
+    memset(x, 0xa5, sizeof(*x));
+    vrt_free(x);
+    VRT_COUNT("clear.nested.handed-over");
+}
+/* the owning element is being destroyed: clear its container through the library, then free it */
+static void sub_destroy(struct elem *e)
+{
+    struct subc *sc = e->sub, *prev = cur_sub;
+    size_t left;
+    cur_sub = sc; sc->seen = 0;
+    switch (sc->kind) {
+    case 0:
+        VRT_OP2("nested.bintree.clear", "owner e%ld n%ld", e->id, sc->n);
+        cstl_bintree_clear(&sc->u.bt, sub_clear_cb, sc);
+        left = cstl_bintree_size(&sc->u.bt);
+        break;
+    case 1:
+        VRT_OP2("nested.rbtree.clear", "owner e%ld n%ld", e->id, sc->n);
+        cstl_rbtree_clear(&sc->u.rt, sub_clear_cb, sc);
+        left = cstl_rbtree_size(&sc->u.rt);
+        break;
+    default:
+        VRT_OP2("nested.heap.clear", "owner e%ld n%ld", e->id, sc->n);
+        cstl_heap_clear(&sc->u.hp, sub_clear_cb);
+        left = cstl_heap_size(&sc->u.hp);
+        break;
+    }
+    cur_sub = prev;
+    VRT_CHECK(sc->seen == sc->n, TK("clear.nested.count"), "inner clear handed over %d of %d elements", sc->seen, sc->n);
+    VRT_CHECK(left == 0, TK("clear.nested.size"), "inner container reports size %zu after clear", left);
+    memset(sc, 0xa5, sizeof(*sc));
+    vrt_free(sc);
+    e->sub = NULL;
+    nested_ran = 1;
+    VRT_COUNT("clear.nested.containers-cleared");
+}
+/* state teardown by the generator (not through the library) */
+static void sub_release(struct elem *e)
+{
+    int i;
+    for (i = 0; i < SUBMAX; i++) if (e->sub->se[i] != NULL) vrt_free(e->sub->se[i]);
+    vrt_free(e->sub);
+    e->sub = NULL;
+}
+
 static void model_add(int t, struct elem *e)
 {
     const int c = cls[t];
@@ -281,6 +408,7 @@ static void recycle(struct elem *e, int c)
         VRT_COUNT("recycle.node-only.still-in-other-tree");
         return;
     }
+    if (e->sub != NULL) sub_destroy(e);
     memset(e, 0xa5, sizeof(*e));
     vrt_free(e);
     pool[id] = new_elem(id);
@@ -570,7 +698,13 @@ static void clear_cb(void *ev, void *p)
     clear_seen++;
     cnt[clear_tree][x->key + 1]--;
     x->where[cls[clear_tree]] = -1; x->midx[cls[clear_tree]] = -1;
+    nested_ran = 0;
     recycle(x, cls[clear_tree]);
+    if (nested_ran) {
+        /* an inner container was cleared from inside this callback; the outer clear goes on */
+        VRT_OP1(is_rb ? "rbtree.clear" : "bintree.clear", "t%ld (continues after a nested clear)", clear_tree);
+        VRT_COUNT("clear.nested.inside-outer-clear");
+    }
     VRT_COUNT("clear.handed-over");
 }
 
@@ -599,6 +733,7 @@ static int st_apply_inner(uint32_t op, int audit)
         key = val;
         if (key >= nkeys || (e = take_elem(t, key)) == NULL) return 0;
         e->key = key;
+        if (mode == MODE_CLEAR && e->sub == NULL && ins_ctr++ % 3 == 0) sub_attach(e);
         par = NULL;
         if (flag) {
             /* documented hint protocol: the `par` reported by a find of the same key with no mutation in between,
@@ -1089,6 +1224,80 @@ next:
     if (rb) VRT_COUNT("random.histories.rbtree"); else VRT_COUNT("random.histories.bintree");
 }
 
+/* ---- deep degenerate plain trees ----
+ * A plain binary tree filled in (nearly) sorted order is as deep as it is large.  4200-6000 keys in ascending or
+ * descending order (optionally in runs of equal keys) make one long spine; zig-zag keys inserted afterwards give
+ * nodes far down the spine (and the deep end) children on the other side, grandchildren included.  Built with the
+ * documented find -> par -> insert protocol on every other insert.  Mode order: audits, early-stop traversals,
+ * finds and erases down there; mode clear: clear with the poisoning/freeing callback, then re-use. */
+static void run_deep(uint64_t di)
+{
+    vrt_rng g;
+    const int desc = (int)(di & 1), dup = (int)((di >> 1) & 1);
+    int n, i, nz, base = 400;
+    vrt_rng_seed(&g, vrt_seed, 0xDEE9000 + di);
+    n = 4200 + (int)vrt_below(&g, 1800);
+    cmp_scale = 1;
+    vrt_case_note("deep bintree %s%s spine=%d", desc ? "descending" : "ascending", dup ? " with-equal-keys" : "", n);
+    st_create_ex(0, 1, base + 4 * n + 400, n + 80, 0);
+    /* equal keys always go right: runs of equal keys keep an ascending spine a spine; on the descending (left)
+     * spine duplicates of deep spine keys are added afterwards instead */
+#define DKEY(i) (base + 4 * ((dup && !desc) ? (i) / 4 * 4 : (i)))
+    for (i = 0; i < n; i++) {
+        const int k = desc ? DKEY(n - 1 - i) : DKEY(i);
+        if (!st_apply(OP(K_INSERT, 0, i & 1, k), 0)) vrt_fail("harness.deep.insert", "insert not applicable");
+    }
+    /* zig-zags: at ~14 nodes below depth 4100 and at the deep end */
+    nz = 0;
+    if (dup && desc)
+        for (i = 0; i < 24; i++) nz += st_apply(OP(K_INSERT, 0, i & 1, DKEY(n - 1 - (4100 + (int)vrt_below(&g, n - 4100)))), 0);
+    for (i = 0; i < 14; i++) {
+        const int at = 4100 + (int)vrt_below(&g, n - 4100);      /* spine position (= depth) */
+        const int k = desc ? DKEY(n - 1 - at) : DKEY(at);
+        if (desc) {
+            /* right child of the spine node, then that child's left and right children */
+            nz += st_apply(OP(K_INSERT, 0, i & 1, k + 2), 0);
+            nz += st_apply(OP(K_INSERT, 0, 1, k + 1), 0);
+            nz += st_apply(OP(K_INSERT, 0, 0, k + 3), 0);
+        } else {
+            /* the next spine node gets a left child, which gets a left and a right child */
+            nz += st_apply(OP(K_INSERT, 0, i & 1, k + 2), 0);
+            nz += st_apply(OP(K_INSERT, 0, 1, k + 1), 0);
+            nz += st_apply(OP(K_INSERT, 0, 0, k + 3), 0);
+        }
+    }
+    if (desc) {
+        static const int tail[] = { 100, 250, 175, 140, 200, 190 };
+        for (i = 0; i < 6; i++) nz += st_apply(OP(K_INSERT, 0, i & 1, tail[i]), 0);
+    } else {
+        static const int tail[] = { 300, 150, 225, 260, 200, 210 };
+        for (i = 0; i < 6; i++) nz += st_apply(OP(K_INSERT, 0, i & 1, base + 4 * n + tail[i]), 0);
+    }
+#undef DKEY
+    VRT_COUNT_N("deep.zigzag-nodes", nz);
+    audit_all();
+    {
+        struct wk w;
+        walk_tree(0, 0, &w);
+        VRT_MAX("max.deep.depth", w.maxd);
+        if (w.maxd > 4096) VRT_COUNT("deep.trees-deeper-than-4096");
+    }
+    vrt_sig(0, vrt_mix(st_sig(), di));
+    /* traffic at depth */
+    for (i = 0; i < (mode == MODE_CLEAR ? 6 : 40); i++) {
+        const int r = vrt_below(&g, 10);
+        const int k = M[0][vrt_below(&g, Mn[0])]->key;
+        if (r < 4) st_apply(OP(K_ERASE, 0, 0, k + 1), (i & 3) == 0);
+        else if (r < 6) st_apply(OP(K_FIND, 0, r & 1, k + 1), 0);
+        else if (r < 8) st_apply(OP(K_FOREACH, 0, r & 1, 1 + vrt_below(&g, 3 * Mn[0])), 0);
+        else st_apply(OP(K_INSERT, 0, r & 1, k), (i & 3) == 0);
+    }
+    audit_all();
+    probe_clear();
+    st_destroy();
+    VRT_COUNT("deep.cases");
+}
+
 /* mode clear: one large random state, cleared, re-used */
 static void run_random_clear(uint64_t idx)
 {
@@ -1121,6 +1330,7 @@ static void run_random_clear(uint64_t idx)
     VRT_COUNT("random.clear-large");
 }
 
+static int ndeep(void);
 static uint64_t nrandom(void)
 {
     if (mc_mode) return mode == MODE_CLEAR ? 64 : 3000;
@@ -1161,15 +1371,22 @@ static void setup_mode(void)
 static uint64_t ncases(void)
 {
     setup_mode();
-    return nscopes + nrandom();
+    return nscopes + ndeep() + nrandom();
+}
+static int ndeep(void)
+{
+    if (mc_mode || mode == MODE_RB) return 0;
+    if (mode == MODE_CLEAR) return vrt_thorough ? 16 : 4;
+    return vrt_thorough ? 8 : 2;
 }
 static void run_case(uint64_t idx)
 {
     if (hang_seen) { VRT_COUNT("hang.cases-skipped-after-a-hang"); return; }
     case_running = 1;
     if (idx < (uint64_t)nscopes) run_closure((int)idx);
-    else if (mode == MODE_CLEAR) run_random_clear(idx - nscopes);
-    else run_random(idx - nscopes);
+    else if (idx < (uint64_t)(nscopes + ndeep())) run_deep(idx - nscopes);
+    else if (mode == MODE_CLEAR) run_random_clear(idx - nscopes - ndeep());
+    else run_random(idx - nscopes - ndeep());
     case_running = 0;
 }
 static void winit(void)
@@ -1194,7 +1411,7 @@ static const char *const required_order[] = {
     "erase.node.two-children.succ-deeper", "erase.node.leaf.root", "erase.node.one-child.root",
     "erase.node.two-children.succ-is-child.root", "erase.node.two-children.succ-deeper.root",
     "closure.states.bintree", "closure.states.rbtree", "random.histories.bintree", "random.histories.rbtree",
-    "probe.observe", "audit.tree", NULL
+    "probe.observe", "audit.tree", "deep.cases", "deep.trees-deeper-than-4096", NULL
 };
 static const char *const required_rb[] = {
     "op.insert", "op.insert.hinted", "op.insert.hinted.key-absent", "op.insert.hinted.key-present",
@@ -1211,7 +1428,9 @@ static const char *const required_rb[] = {
 static const char *const required_clear[] = {
     "op.clear", "clear.handed-over", "probe.clear-then-reuse", "closure.states.bintree", "closure.states.rbtree",
     "recycle.node-only.still-in-other-tree",
-    "random.clear-large", "op.insert", "op.erase", NULL
+    "random.clear-large", "op.insert", "op.erase",
+    "deep.cases", "deep.trees-deeper-than-4096", "deep.zigzag-nodes",
+    "nested.attached", "clear.nested.containers-cleared", "clear.nested.inside-outer-clear", "clear.nested.handed-over", NULL
 };
 static const char *const required_mc[] = {
     "op.insert", "op.insert.hinted", "op.erase", "op.find", "op.clear", "closure.states", "memcheck.polls", NULL
